@@ -6,6 +6,7 @@ package engine
 
 import (
 	"fmt"
+	"os"
 	"runtime"
 	"sort"
 	"strconv"
@@ -16,20 +17,28 @@ import (
 
 	"github.com/openGemini/openGemini/verifsim/core"
 	"github.com/openGemini/openGemini/verifsim/simfs"
+	"github.com/openGemini/openGemini/verifsim/verifyield"
 )
 
 // cwParked is one file-system operation waiting at its gate.
 type cwParked struct {
+	site  string // lock-level yield point ("" for a file-system operation)
 	class string // who issues it: w1..w3 | query | flush | compact | merge | seqload | drop | close | other
 	kind  simfs.Kind
 	path  string
 	off   int64
 	size  int
 	ch    chan struct{}
-	seq   int64 // arrival number (diagnostics only, never used for ordering)
+	seq   int64 // arrival number (diagnostics; tie-break among serialisation parks of one site)
+	goid  int64
+	auto  bool // parked only to be serialised: resumed by the scheduler without a choice
+	who   string // yield points: the task (w1..w3, r1, r2, flusher, ...) if the goroutine is a task's own, else the class
 }
 
 func (p *cwParked) desc() string {
+	if p.site != "" {
+		return "yield " + p.who + " " + p.site
+	}
 	return "fs " + p.class + " " + p.kind.String() + " " + cwPathClass(cwNormPath(p.path))
 }
 
@@ -46,7 +55,10 @@ func cwPathClass(p string) string {
 }
 
 func (p *cwParked) sortKey() string {
-	return fmt.Sprintf("%s|%s|%02d|%012d|%08d", cwNormPath(p.path), p.class, p.kind, p.off+1, p.size)
+	if p.site != "" {
+		return "~yield|" + p.site + "|" + p.who // after every file-system operation
+	}
+	return fmt.Sprintf("%s|%s|%02d|%012d|%08d|%s", cwNormPath(p.path), p.class, p.kind, p.off+1, p.size, p.who)
 }
 
 // cwNormPath removes the random part of compaction-log file names (crypto/rand).
@@ -99,10 +111,36 @@ type cwSched struct {
 	dbg      bool
 	fsSteps  map[string]int64 // released FS ops per class (statistics)
 	gatedOps int64
+
+	// lock-level yield points (verifyield): which arrivals park is a pure function of
+	// (lockSeed, class, site, occurrence number of that class at that site)
+	lockNth   int             // 0 = off, 1 = every arrival, n = one in n
+	lockSeed  int64
+	lockSites []string        // substrings; empty = every site
+	lockCls   map[string]bool // classes that park at yield points; empty = every task class
+	siteOK    sync.Map        // site -> bool (lockSites filter, cached)
+	goWho     map[int64]string // goroutine id -> task name (w1, r2, flusher, ...) of every task goroutine
+	goAll     map[int64]string // goroutine id -> class of EVERY task goroutine (yield points only; goTask keeps the FS descriptors of old replays stable)
+	yCnt      map[string]int64 // class|site -> arrivals
+	ySteps    map[string]int64 // released yield points per class (statistics)
+	yHits     atomic.Int64     // arrivals at yield points while the scheduler was in control
+	yParked   atomic.Int64     // arrivals that parked
+	stackMemo sync.Map         // hash of a call stack -> class
+	micro     []string         // CW_MICRO=1
+	oneP      bool             // GOMAXPROCS == 1
+	serial    bool             // serialise the goroutines of one step at yield points (one P, not a chaos worker)
+	actor     int64            // goroutine released or started by the scheduler in this step
+	yAuto     atomic.Int64     // arrivals parked for serialisation
+	nAuto     int64            // ... and resumed by the scheduler
+	stepNo    atomic.Int64
 }
 
+var cwMicro = os.Getenv("CW_MICRO") != ""
+
+
 func newCwSched(readClasses string, nth int) *cwSched {
-	s := &cwSched{goTask: map[int64]string{}, readCls: map[string]bool{}, readNth: nth, readCnt: map[string]int{}, buf: make([]byte, 1<<20), fsSteps: map[string]int64{}}
+	s := &cwSched{goTask: map[int64]string{}, readCls: map[string]bool{}, readNth: nth, readCnt: map[string]int{}, buf: make([]byte, 1<<20), fsSteps: map[string]int64{},
+		lockCls: map[string]bool{}, goAll: map[int64]string{}, goWho: map[int64]string{}, yCnt: map[string]int64{}, ySteps: map[string]int64{}}
 	for _, c := range strings.Split(readClasses, ",") {
 		if c != "" {
 			s.readCls[c] = true
@@ -167,7 +205,29 @@ var cwMarkers = []struct{ sub, class string }{
 func cwClassify() string {
 	var pcs [48]uintptr
 	n := runtime.Callers(3, pcs[:])
-	frames := runtime.CallersFrames(pcs[:n])
+	return cwClassifyPCs(pcs[:n])
+}
+
+// classifyMemo: cwClassify of the caller's caller, memoised on the call stack (yield
+// points are hit far more often than file-system gates).
+func (s *cwSched) classifyMemo() string {
+	var pcs [48]uintptr
+	n := runtime.Callers(3, pcs[:])
+	h := uint64(14695981039346656037)
+	for _, pc := range pcs[:n] {
+		h ^= uint64(pc)
+		h *= 1099511628211
+	}
+	if c, ok := s.stackMemo.Load(h); ok {
+		return c.(string)
+	}
+	c := cwClassifyPCs(pcs[:n])
+	s.stackMemo.Store(h, c)
+	return c
+}
+
+func cwClassifyPCs(pcs []uintptr) string {
+	frames := runtime.CallersFrames(pcs)
 	first := ""
 	// a drop runs a flush inside; a flush runs inside a drop: outermost "drop" wins
 	for {
@@ -233,11 +293,13 @@ func (s *cwSched) gate(d *simfs.Disk, e *simfs.Entry) {
 		}
 	}
 	p := &cwParked{class: class, kind: e.Kind, path: e.Path, off: e.Off, size: size, ch: make(chan struct{})}
+	p.goid = cwGoID()
 	s.mu.Lock()
 	if s.free.Load() {
 		s.mu.Unlock()
 		return
 	}
+	p.who = s.goWho[p.goid]
 	s.arrivals++
 	p.seq = s.arrivals
 	s.parked = append(s.parked, p)
@@ -246,12 +308,182 @@ func (s *cwSched) gate(d *simfs.Disk, e *simfs.Entry) {
 	<-p.ch
 }
 
+// cwYieldClasses: task classes whose goroutines may park at a lock-level yield point.
+// Goroutines that are not part of the shard's operations (class "other" without a task:
+// tickers, the index, harness probes) and the file collector never park.
+var cwYieldClasses = map[string]bool{"w1": true, "w2": true, "w3": true, "query": true, "flush": true, "compact": true, "merge": true,
+	"seqload": true, "drop": true, "close": true}
+
+// cwSiteInfo: per-site facts, computed once.
+type cwSiteInfo struct {
+	selectable bool // may park by seeded choice (lockSites filter, exclusions, not a passive kind)
+	passive    bool // kind Locked/RLocked/Waited/Recvd: parks only to serialise
+}
+
+func (s *cwSched) siteInfo(site string) *cwSiteInfo {
+	if v, ok := s.siteOK.Load(site); ok {
+		return v.(*cwSiteInfo)
+	}
+	si := &cwSiteInfo{}
+	kind := site
+	if i := strings.LastIndexByte(site, ':'); i >= 0 {
+		kind = site[i+1:]
+	}
+	if i := strings.IndexByte(kind, '#'); i >= 0 {
+		kind = kind[:i]
+	}
+	switch kind {
+	case "Locked", "RLocked", "Waited", "Recvd":
+		si.passive = true
+	}
+	si.selectable = !si.passive && len(s.lockSites) == 0
+	if !si.passive {
+		for _, f := range s.lockSites {
+			if strings.Contains(site, f) {
+				si.selectable = true
+			}
+		}
+	}
+	for _, f := range cwYieldExclude {
+		if strings.Contains(site, f) {
+			si.selectable = false
+		}
+	}
+	s.siteOK.Store(site, si)
+	return si
+}
+
+// yield is installed as verifyield's hook while an execution is running.
+//
+// Two reasons to park a task goroutine at a yield point:
+//   - seeded choice (lockNth > 0): the arrival is selected by a pure function of
+//     (lockSeed, class, site, ordinal of the arrival); the parked goroutine is then an
+//     action offered to the scheduler like a parked file-system operation;
+//   - serialisation (serial): inside one scheduler step only the goroutine the scheduler
+//     released or started (the actor) runs past yield points; any other task goroutine —
+//     woken by the actor's Unlock / Done / channel operation, or spawned by it — stops
+//     at its next yield point and is resumed by the scheduler, alone, once the step is
+//     quiescent (in canonical order, no choice involved).  What two goroutines would do
+//     "at the same time" inside one step is thereby put into one deterministic order.
+func (s *cwSched) yield(site string) {
+	if s.free.Load() {
+		return
+	}
+	if s.lockNth <= 0 && !s.serial && !cwMicro {
+		return
+	}
+	class := s.classifyMemo()
+	if class == "gc" {
+		return
+	}
+	gid := cwGoID()
+	s.mu.Lock()
+	who, task := s.goWho[gid]
+	if class == "write" || class == "other" {
+		c, ok := s.goAll[gid]
+		if !ok {
+			s.mu.Unlock()
+			return
+		}
+		class = c
+	}
+	s.mu.Unlock()
+	if !cwYieldClasses[class] {
+		return
+	}
+	if !task {
+		who = class
+	}
+	si := s.siteInfo(site)
+	s.yHits.Add(1)
+	s.mu.Lock()
+	if s.free.Load() {
+		s.mu.Unlock()
+		return
+	}
+	if cwMicro {
+		// debug aid (CW_MICRO=1): every arrival of every task goroutine at every yield
+		// point, in arrival order, goes to the log — shows where two executions part
+		s.micro = append(s.micro, fmt.Sprintf("s%d %s %s", s.stepNo.Load(), class, site))
+	}
+	sel := false
+	if s.lockNth > 0 && si.selectable && (len(s.lockCls) == 0 || s.lockCls[class]) {
+		key := class + "|" + site
+		s.yCnt[key]++
+		sel = s.lockNth == 1 || cwHash(key, s.lockSeed, s.yCnt[key])%uint64(s.lockNth) == 0
+	}
+	if !sel && (!s.serial || s.actor == gid || s.actor == cwActorAll) {
+		s.mu.Unlock()
+		return
+	}
+	p := &cwParked{site: site, class: class, who: who, ch: make(chan struct{}), goid: gid, auto: !sel}
+	s.arrivals++
+	p.seq = s.arrivals
+	s.parked = append(s.parked, p)
+	s.mu.Unlock()
+	if sel {
+		s.yParked.Add(1)
+	} else {
+		s.yAuto.Add(1)
+	}
+	<-p.ch
+}
+
+// cwActorAll: no serialisation in this step (a burst: operations started together race natively).
+const cwActorAll = -1
+
+// nextAuto: the first (canonical order) goroutine that parked only to be serialised.
+func (s *cwSched) nextAuto() *cwParked {
+	s.mu.Lock()
+	defer s.mu.Unlock()
+	var best *cwParked
+	for _, p := range s.parked {
+		if p.auto && (best == nil || p.sortKey() < best.sortKey() || (p.sortKey() == best.sortKey() && p.goid < best.goid)) {
+			best = p
+		}
+	}
+	return best
+}
+
+func (s *cwSched) setActor(gid int64) {
+	s.mu.Lock()
+	s.actor = gid
+	s.mu.Unlock()
+}
+
+// cwYieldExclude: yield points that never park (substrings of site names): places where
+// the product relies on another goroutine making progress in bounded real time.
+// Listed in the world's cfg ("env": VERIF_C_YIELD_EXCLUDE, comma separated); empty so far:
+// no such place has shown up (a parked goroutine that another one polls for with
+// time.Sleep keeps the step quiescent-by-sleep and is resumed by a later action).
+var cwYieldExclude = func() []string {
+	var out []string
+	for _, f := range strings.Split(os.Getenv("VERIF_C_YIELD_EXCLUDE"), ",") {
+		if f = strings.TrimSpace(f); f != "" {
+			out = append(out, f)
+		}
+	}
+	return out
+}()
+
+func (s *cwSched) installYield() { verifyield.SetHook(s.yield) }
+func (s *cwSched) removeYield()  { verifyield.SetHook(nil) }
+
 // parkedSorted returns the parked operations in canonical order.
 func (s *cwSched) parkedSorted() []*cwParked {
 	s.mu.Lock()
-	ps := append([]*cwParked(nil), s.parked...)
+	var ps []*cwParked
+	for _, p := range s.parked {
+		if !p.auto {
+			ps = append(ps, p)
+		}
+	}
 	s.mu.Unlock()
-	sort.SliceStable(ps, func(i, j int) bool { return ps[i].sortKey() < ps[j].sortKey() })
+	// ties (same descriptor): by goroutine id = creation order, which the program fixes; not by arrival order
+	sort.SliceStable(ps, func(i, j int) bool {
+		a, b := ps[i].sortKey(), ps[j].sortKey()
+		return a < b || (a == b && ps[i].goid < ps[j].goid)
+	})
 	return ps
 }
 
@@ -263,7 +495,14 @@ func (s *cwSched) release(p *cwParked) {
 			break
 		}
 	}
-	s.fsSteps[p.class]++
+	if p.auto {
+		s.nAuto++
+	} else if p.site != "" {
+		s.ySteps[p.class]++
+	} else {
+		s.fsSteps[p.class]++
+	}
+	s.actor = p.goid
 	s.mu.Unlock()
 	close(p.ch)
 }
@@ -357,6 +596,10 @@ func cwParseStates(b []byte) (active, sleepers int) {
 // waitQuiet returns when no other goroutine is running/runnable/in a syscall for
 // three consecutive polls and the parked set did not change in between.
 func (s *cwSched) waitQuiet(done func() int) {
+	if s.oneP {
+		s.waitQuietOneP(done)
+		return
+	}
 	quiet := 0
 	lastPark, lastDone := -1, -1
 	t0 := time.Now()
@@ -376,11 +619,26 @@ func (s *cwSched) waitQuiet(done func() int) {
 		lastPark, lastDone = np, nd
 		if quiet >= 4 {
 			if s.dbg {
-				// debug: is anything still moving 3 ms after "quiescence"?
-				time.Sleep(3 * time.Millisecond)
+				// debug: is anything still moving 5 ms after "quiescence"?  If so: what was
+				// that goroutine doing when quiescence was declared?
+				before := s.dump()
+				s.mu.Lock()
+				old := map[*cwParked]bool{}
+				for _, p := range s.parked {
+					old[p] = true
+				}
+				s.mu.Unlock()
+				time.Sleep(5 * time.Millisecond)
 				a2, _ := s.scan()
 				if a2 != 0 || s.nParked() != np || done() != nd {
-					fmt.Printf("CW LATE active=%d parked %d->%d done %d->%d\n%s\n", a2, np, s.nParked(), nd, done(), cwTrimDump(cwNonIdle(string(s.buf)), 3000))
+					fmt.Printf("CW LATE active=%d parked %d->%d done %d->%d\n%s", a2, np, s.nParked(), nd, done(), cwActiveTops(string(s.buf)))
+					s.mu.Lock()
+					for _, p := range s.parked {
+						if !old[p] {
+							fmt.Printf("CW LATE newly parked: %s (goroutine %d); at quiescence it was:\n%s\n", p.desc(), p.goid, cwTrimDump(cwGoroutineOf(before, p.goid), 2500))
+						}
+					}
+					s.mu.Unlock()
 				}
 			}
 			return
@@ -389,6 +647,39 @@ func (s *cwSched) waitQuiet(done func() int) {
 			time.Sleep(60 * time.Microsecond)
 		}
 		if time.Since(t0) > 20*time.Second {
+			panic(core.InfraPanic(fmt.Sprintf("world C: no quiescence within 20 s (active=%d parked=%d)\n%s", a, np, cwTrimDump(string(s.buf), 6000))))
+		}
+	}
+}
+
+// waitQuietOneP: with one P and no asynchronous preemption the caller runs only when no
+// other goroutine is running; after a Gosched every goroutine that was runnable has had
+// its turn.  Quiescent = two consecutive scans without a running/runnable/syscall
+// goroutine and with the same parked set and done counter.  The caller never sleeps
+// while others are active (a timer wake-up of the scheduler goroutine would itself
+// reorder the run queue).
+func (s *cwSched) waitQuietOneP(done func() int) {
+	quiet := 0
+	lastPark, lastDone := -1, -1
+	t0 := time.Now()
+	for it := 0; ; it++ {
+		runtime.Gosched()
+		a, _ := s.scan()
+		np, nd := s.nParked(), done()
+		if a == 0 && np == lastPark && nd == lastDone {
+			quiet++
+		} else {
+			quiet = 0
+		}
+		lastPark, lastDone = np, nd
+		if quiet >= 2 {
+			return
+		}
+		if a > 0 && it > 200 && it%50 == 0 {
+			// something sits in a long system call: let real time pass
+			time.Sleep(200 * time.Microsecond)
+		}
+		if it%256 == 255 && time.Since(t0) > 20*time.Second {
 			panic(core.InfraPanic(fmt.Sprintf("world C: no quiescence within 20 s (active=%d parked=%d)\n%s", a, np, cwTrimDump(string(s.buf), 6000))))
 		}
 	}
@@ -407,6 +698,37 @@ func cwNonIdle(d string) string {
 		}
 	}
 	return b.String()
+}
+
+// cwActiveTops: header + frames 1..3 of every running/runnable/syscall goroutine (debug aid).
+func cwActiveTops(d string) string {
+	var b strings.Builder
+	for i, g := range strings.Split(d, "\n\n") {
+		if i == 0 {
+			continue
+		}
+		ls := strings.Split(g, "\n")
+		if len(ls) < 2 || !(strings.Contains(ls[0], "[running") || strings.Contains(ls[0], "[runnable") || strings.Contains(ls[0], "[syscall")) || strings.Contains(g, "signal_recv") {
+			continue
+		}
+		b.WriteString("   LATE-ACTIVE " + ls[0])
+		for k := 1; k < len(ls) && k <= 9; k += 2 {
+			b.WriteString(" < " + ls[k])
+		}
+		b.WriteString("\n")
+	}
+	return b.String()
+}
+
+// cwGoroutineOf: the stack of one goroutine out of a dump (debug aid).
+func cwGoroutineOf(dump string, goid int64) string {
+	pre := fmt.Sprintf("goroutine %d [", goid)
+	for _, g := range strings.Split(dump, "\n\n") {
+		if strings.HasPrefix(g, pre) {
+			return g
+		}
+	}
+	return "(goroutine did not exist yet)"
 }
 
 func cwTrimDump(d string, n int) string {
